@@ -329,7 +329,18 @@ def run(ctx):
                     rep.ok("NI-4", g.key, "%s:%s" % (kind, text), where=fc.where(g, line))
             if fn == "register_announce_message":
                 # returns true only on the accepting path
-                for (bi, si, d) in cg_.d.whole.get(0, []):
+                ret_defs = list(cg_.d.whole.get(0, []))
+                for _hop in range(3):
+                    # `_0 = move _x`: the definitions of _x are the ones that decide (value returned through a local)
+                    nxt = []
+                    for (bi, si, d) in ret_defs:
+                        pl = mir.op_place(d[1]["op"]) if d[0] == "assign" and d[1]["k"] == "use" else None
+                        if pl is not None and not pl["proj"] and cg_.d.whole.get(pl["l"]):
+                            nxt.extend(cg_.d.whole[pl["l"]])
+                        else:
+                            nxt.append((bi, si, d))
+                    ret_defs = nxt
+                for (bi, si, d) in ret_defs:
                     if d[0] == "assign" and d[1]["k"] == "use" and mir.op_const(d[1]["op"]) is True:
                         eff_blocks = {s[0] for s in sites}
                         gcfg = mir.cfg(g)
